@@ -30,11 +30,16 @@ PROP = {
         {"name": "c11_chain", "src": "c01_hash.cpp", "flags": ["-DVF_PART=0", "-DVF_FAULTS=1"]},
         {"name": "c11_old", "src": "c01_hash.cpp", "flags": ["-DVF_PART=1", "-DVF_FAULTS=1"]},
         {"name": "c11_open", "src": "c01_hash.cpp", "flags": ["-DVF_PART=2", "-DVF_FAULTS=1"]},
+        {"name": "c11_cfg", "src": "c01_hash.cpp", "flags": ["-DVF_PART=3", "-DVF_FAULTS=1"]},
+        {"name": "c11_chain_p48", "src": "c01_hash.cpp", "flags": ["-DVF_PART=0", "-DVF_FAULTS=1", "-DVF_PTRBITS=48", "-DMOMO_MEM_MANAGER_PTR_USEFUL_BIT_COUNT=48"]},
+        {"name": "c11_chain_p32", "src": "c01_hash.cpp", "flags": ["-DVF_PART=0", "-DVF_FAULTS=1", "-DVF_PTRBITS=32", "-DMOMO_MEM_MANAGER_PTR_USEFUL_BIT_COUNT=32"]},
     ],
     "rule": ("the C01 histories with a fault armed on 1/3 of insertions / reservations (refuse exactly the next bucket array, refuse the k-th other "
              "allocation, throw from the k-th element copy, throw from the k-th hash call of slow-hash traits) and, when growth is imminent, a failure "
              "aimed inside the migration; a case is non-trivial when the operation ran with >= 2 table generations alive or right after a refused "
-             "growth (counted per operation: distinct (history, step))."),
+             "growth (counted per operation: distinct (history, step)). c11_cfg / c11_chain_p48 / _p32: the same under the added C01 configurations "
+             "(LimP<7>/<15> pointer states, one-block pools, 48-/32-bit LimP4 pointer states); while several generations coexist the bucket interface "
+             "(GetBucketBounds over all generations, GetBucketIndex of keys in old generations) is checked after every operation."),
     "runtime_only": ["ledger of the memory manager at the end of every history"],
     "not_modelled": ["which allocation inside the migration fails (taken from the observed number of moved items)"],
 }
